@@ -10,6 +10,8 @@ import vlib
 
 PROP = 'C11'
 HDR_DMA = 'From Coq Require Import List NArith.\nImport ListNotations.\nFrom VCp Require Import Dma.\nOpen Scope N_scope.\n'
+HDR_HIST = ('From Coq Require Import List NArith.\nImport ListNotations.\nFrom VDrv Require Import MemCopy FlushHist.\n'
+            'Open Scope N_scope.\n')
 HDR_DRV = ('From Coq Require Import List NArith.\nImport ListNotations.\nFrom VMem Require Import StorageAccessor.\n'
            'From VDrv Require Import MemCopy.\nOpen Scope N_scope.\n')
 COQ_TARGETS = ['props/C11.vo']
@@ -143,6 +145,40 @@ def mon_dma(case):
     return None
 
 
+def mon_hist(case):
+    """Multi-queue history of one context.  A copy whose range shares a byte with a buffer that existed when a
+    kernel was launched, that kernel having completed since the last flush was issued, must flush."""
+    running = {}            # queue -> number of buffers existing at launch
+    need = []               # (prefix, queue) of kernels completed after the last flush
+    nb = len(case.get('initb', []))
+    bufs = [(b['start'], b['size']) for b in case.get('initb', [])]
+    for k, e in enumerate(case['events']):
+        if e.get('crash'):
+            return 'event %d (%s on queue %d) panicked' % (k, e['e'], e['q'])
+        if e['e'] == 'alloc':
+            bufs.append((e['ptr'], e['size']))
+        elif e['e'] == 'launch' and e['done']:
+            running[e['q']] = len(bufs)
+        elif e['e'] == 'complete':
+            if e['q'] in running:
+                if not e['done']:
+                    return 'event %d: the kernel of queue %d was answered but its command did not complete' % (k, e['q'])
+                need.append((running.pop(e['q']), e['q']))
+        elif e['e'] == 'copy' and (e['done'] or e['flush']):
+            if e['flush']:
+                need = []
+            else:
+                for m, q in need:
+                    for (st, sz) in bufs[:m]:
+                        if sz > 0 and max(st, e['addr']) < min(st + sz, e['addr'] + e['n']):
+                            return ('event %d: %s %#x +%d on queue %d skipped the cache flush although the kernel of queue %d '
+                                    'completed since the last flush and may have written buffer [%#x,+%d)'
+                                    % (k, 'D2H' if e.get('d2h') else 'H2D', e['addr'], e['n'], e['q'], q, st, sz))
+            if not e['done']:
+                return 'event %d: copy on queue %d did not complete after all responses' % (k, e['q'])
+    return None
+
+
 def translate(case):
     ps = 1 << case['lg']
     pt = {p['key']: p for p in case['pt']}
@@ -241,7 +277,7 @@ def mon_drv(case):
 
 def strip(obj):
     """replay input: cases without observations"""
-    out = {'dma': [], 'drv': [], 'ovl': []}
+    out = {'dma': [], 'drv': [], 'ovl': [], 'hist': []}
     for c in obj.get('dma', []):
         out['dma'].append({'lg': c['lg'], 'max': c.get('max', 4), 'hostile': c.get('hostile', False), 'drained': c.get('drained', False),
                            'events': [{k: e[k] for k in ('e', 'copy', 'rsp') if k in e} for e in c['events']]})
@@ -252,10 +288,13 @@ def strip(obj):
                                     'typ': o.get('typ', 'bytes'), 'flush_last': o.get('flush_last', False)} for o in c['ops']]})
     for c in obj.get('ovl', []):
         out['ovl'].append({k: c[k] for k in ('s1', 'e1', 's2', 'e2')})
+    for c in obj.get('hist', []):
+        out['hist'].append({'ngpu': c['ngpu'], 'nq': c['nq'], 'init': c['init'],
+                            'events': [{k: e[k] for k in ('e', 'q', 'size', 'd2h', 'addr', 'n') if k in e} for e in c['events']]})
     return out
 
 
-def run_impl(binary, cases=None, seed=1, n=(60, 40, 200)):
+def run_impl(binary, cases=None, seed=1, n=(60, 40, 200, 60)):
     tmp = os.path.join(vlib.BUILD, 'c11_%d.json' % os.getpid())
     scratch = os.path.join(vlib.BUILD, 'c11_scratch')
     os.makedirs(scratch, exist_ok=True)
@@ -265,7 +304,7 @@ def run_impl(binary, cases=None, seed=1, n=(60, 40, 200)):
         rc, log = vlib.run([binary, '--replay', inp, '--out', tmp], cwd=scratch, timeout=600)
         os.remove(inp)
     else:
-        rc, log = vlib.run([binary, '--seed', str(seed), '--ndma', str(n[0]), '--ndrv', str(n[1]), '--novl', str(n[2]),
+        rc, log = vlib.run([binary, '--seed', str(seed), '--ndma', str(n[0]), '--ndrv', str(n[1]), '--novl', str(n[2]), '--nhist', str(n[3]),
                             '--out', tmp], cwd=scratch, timeout=900)
     if rc != 0:
         return None, log
@@ -313,11 +352,23 @@ def platform_samples(only=None):
 
 
 def merge(a, b):
-    return {k: a.get(k, []) + b.get(k, []) for k in ('dma', 'drv', 'ovl')}
+    return {k: a.get(k, []) + b.get(k, []) for k in ('dma', 'drv', 'ovl', 'hist')}
 
 
 def dma_nontrivial(c):
     return sum(1 for e in c['events'] if e.get('done')) >= 2
+
+
+def hist_nontrivial(c):
+    fl = set()
+    for e in c['events']:
+        if e['e'] == 'launch' and e['done']:
+            fl.add(e['q'])
+        elif e['e'] == 'complete':
+            fl.discard(e['q'])
+        elif e['e'] == 'copy' and e['done'] and fl:
+            return True
+    return False
 
 
 def drv_nontrivial(c):
@@ -346,7 +397,7 @@ def main(argv):
                        'the memory answers each sub-request at most once with the matching response type (hostile answers: model and '
                        'implementation agree on the panic, no property is claimed)']
     thorough = vlib.tier() == 'thorough'
-    n = (600, 300, 2000) if thorough else (50, 40, 300)
+    n = (600, 300, 2000, 1500) if thorough else (50, 40, 300, 150)
 
     replay_file = None
     if '--replay' in argv:
@@ -376,7 +427,7 @@ def main(argv):
             rep.violation({'broken': 'harness replay failed', 'log': log[-4000:]}, nofail=True)
             return rep.finish()
     else:
-        cases = {'dma': [], 'drv': [], 'ovl': []}
+        cases = {'dma': [], 'drv': [], 'ovl': [], 'hist': []}
         cdir = os.path.join(vlib.ROOT, 'corpus', PROP)
         for p in sorted(os.listdir(cdir)) if os.path.isdir(cdir) else []:
             got, log = run_impl(binary, cases=strip(json.load(open(os.path.join(cdir, p)))))
@@ -401,6 +452,10 @@ def main(argv):
         m = mon_dma(c)
         if m:
             bad.append(('dma', i, m))
+    for i, c in enumerate(cases['hist']):
+        m = mon_hist(c)
+        if m:
+            bad.append(('hist', i, m))
     known_seen = set()
     for i, c in enumerate(cases['drv']):
         m, k = mon_drv(c)
@@ -413,16 +468,19 @@ def main(argv):
 
     # ---- correspondence with the models
     from concurrent.futures import ThreadPoolExecutor
-    with ThreadPoolExecutor(max_workers=3) as ex:
+    with ThreadPoolExecutor(max_workers=4) as ex:
         f1 = ex.submit(vlib.eval_cases, PROP + 'dma', HDR_DMA, [c['coq'] for c in cases['dma']], 6)
         f2 = ex.submit(vlib.eval_cases, PROP + 'drv', HDR_DRV, [c['coq'] for c in cases['drv']], 4, 'dmismatches')
         f3 = ex.submit(vlib.eval_cases, PROP + 'ovl', HDR_DRV, [c['coq'] for c in cases['ovl']], 400, 'omismatches')
+        f4 = ex.submit(vlib.eval_cases, PROP + 'hist', HDR_HIST, [c['coq'] for c in cases['hist']], 40, 'hmismatches')
+        ok4, mism4, log4 = f4.result()
         ok1, mism1, log1 = f1.result()
         ok2, mism2, log2 = f2.result()
         ok3, mism3, log3 = f3.result()
     rep.obligation('correspondence: %d DMA port histories evaluated by the model' % len(cases['dma']), ok1 and not mism1)
     rep.obligation('correspondence: %d driver/accessor cases evaluated by the model' % len(cases['drv']), ok2 and not mism2)
     rep.obligation('correspondence: %d memRangeOverlap samples evaluated by the model' % len(cases['ovl']), ok3 and not mism3)
+    rep.obligation('correspondence: %d multi-queue flush histories evaluated by the model' % len(cases['hist']), ok4 and not mism4)
 
     plat = []
     if not replay_file or 'platform' in json.load(open(replay_file)):
@@ -431,19 +489,32 @@ def main(argv):
         rep.obligation('sampled platform runs verify their data: ' + ', '.join('%s=%s' % (n_, v) for n_, v, _ in plat),
                        all(v == 'ok' for _, v, _ in plat))
 
+    hist_inflight = 0
+    for c in cases['hist']:
+        fl = set()
+        for e in c['events']:
+            if e['e'] == 'launch' and e['done']:
+                fl.add(e['q'])
+            elif e['e'] == 'complete':
+                fl.discard(e['q'])
+            elif e['e'] == 'copy' and e['done'] and fl:
+                hist_inflight += 1
     hist = collections.Counter(e['e'] for c in cases['dma'] for e in c['events'])
     ophist = collections.Counter(o['op'] + ('/magic' if c['magic'] else '/default') for c in cases['drv'] for o in c['ops'])
     stripped = strip(cases)
     nt = {vlib.case_hash(s) for s, c in zip(stripped['dma'], cases['dma']) if dma_nontrivial(c)} | \
-         {vlib.case_hash(s) for s, c in zip(stripped['drv'], cases['drv']) if drv_nontrivial(c)}
+         {vlib.case_hash(s) for s, c in zip(stripped['drv'], cases['drv']) if drv_nontrivial(c)} | \
+         {vlib.case_hash(s) for s, c in zip(stripped['hist'], cases['hist']) if hist_nontrivial(c)}
     rep.coverage.update({
-        'evaluations': len(cases['dma']) + len(cases['drv']) + len(cases['ovl']),
+        'evaluations': len(cases['dma']) + len(cases['drv']) + len(cases['ovl']) + len(cases['hist']),
         'distinct_nontrivial': len(nt),
         'rule': 'DMA: random port histories (60-300 events + drain; access unit 4..64 bytes; up to 14 commands, lengths around unit '
                 'boundaries; every 5th history hostile), non-trivial = at least two completions observed.  Driver: 1-4 GPUs, 1-4 buffers '
                 'with pages spread over GPUs, page sizes 1-4 KiB, offsets/lengths around page boundaries, element types bytes/int32/'
                 'float32/uint64/struct, magic and default middleware alternating, accessor reads/writes on the same storage; '
-                'non-trivial = at least one operation crosses a page boundary.  Overlap: all orderings of 4 endpoints + random.',
+                'non-trivial = at least one operation crosses a page boundary.  Overlap: all orderings of 4 endpoints + random.  '
+                'Flush histories: one context, 2-4 queues on 1-3 GPUs, 8-37 events (alloc / kernel launch / kernel completion / H2D / D2H) '
+                'in random interleavings; non-trivial = a copy is processed while a kernel of another queue is in flight.',
         'traces_validated_against_impl': len(cases['dma']) + len(cases['drv']),
         'dma_event_histogram': dict(hist),
         'dma_completions_observed': sum(1 for c in cases['dma'] for e in c['events'] if e.get('done')),
@@ -457,8 +528,12 @@ def main(argv):
         'driver_flushes': sum(1 for c in cases['drv'] for o in c['ops'] if o['flush']),
         'driver_panics': sum(1 for c in cases['drv'] for o in c['ops'] if o['crash']),
         'overlap_samples': len(cases['ovl']),
+        'flush_histories': len(cases['hist']),
+        'flush_history_events': dict(collections.Counter(e['e'] for c in cases['hist'] for e in c['events'])),
+        'flush_history_copies_while_kernel_in_flight': hist_inflight,
+        'flush_history_flushes': sum(1 for c in cases['hist'] for e in c['events'] if e['flush']),
         'platform_samples': {n_: v for n_, v, _ in plat},
-        'model_mismatches': len(mism1) + len(mism2) + len(mism3), 'monitor_failures': len(bad),
+        'model_mismatches': len(mism1) + len(mism2) + len(mism3) + len(mism4), 'monitor_failures': len(bad),
     })
     rep.samples = [{'kind': 'dma', 'lg': c['lg'], 'events': [e['e'] for e in c['events'][:30]]} for c in cases['dma'][:1]] + \
                   [{'kind': 'drv', 'lg': c['lg'], 'magic': c['magic'], 'ngpu': c['ngpu'],
@@ -469,12 +544,12 @@ def main(argv):
         n_, v, l = platbad[0]
         args = [a for nm, pk, a in PLATFORM_SAMPLES if nm == n_][0]
         msg = 'platform sample %s %s: %s' % (n_, ' '.join(args), 'did not verify / did not finish' if v == 'fail' else 'does not build')
-        rep.violation({'property': PROP, 'what': msg, 'platform': n_, 'log': l, 'cases': {'dma': [], 'drv': [], 'ovl': []},
+        rep.violation({'property': PROP, 'what': msg, 'platform': n_, 'log': l, 'cases': {'dma': [], 'drv': [], 'ovl': [], 'hist': []},
                        'replay_cmd': './check C11 --replay <this file>'}, text=msg, nofail=(v != 'fail'))
     if bad:
         kind, i, msg = bad[0]
         c = cases[kind][i]
-        one = {'dma': [], 'drv': [], 'ovl': []}
+        one = {'dma': [], 'drv': [], 'ovl': [], 'hist': []}
         if kind == 'dma':
             def fails(evs):
                 cc = dict(c); cc['events'] = evs; cc['drained'] = False
@@ -495,28 +570,42 @@ def main(argv):
             out, _ = run_impl(binary, cases=strip({'drv': [cc]}))
             if out and mon_drv(out['drv'][0])[0]:
                 c, msg = out['drv'][0], mon_drv(out['drv'][0])[0]
+        elif kind == 'hist':
+            def fails(evs):
+                cc = dict(c); cc['events'] = evs
+                out, _ = run_impl(binary, cases=strip({'hist': [cc]}))
+                m2 = mon_hist(out['hist'][0]) if out else None
+                return bool(m2) and ('skipped' in m2) == ('skipped' in msg)
+            small = vlib.ddmin(c['events'], fails, budget=80)
+            cc = dict(c); cc['events'] = small
+            out, _ = run_impl(binary, cases=strip({'hist': [cc]}))
+            if out and mon_hist(out['hist'][0]):
+                c, msg = out['hist'][0], mon_hist(out['hist'][0])
         c = {k: v for k, v in c.items() if k not in ('coq', 'dump')}
         one[kind] = [c]
         rep.violation({'property': PROP, 'what': msg, 'kind': kind, 'cases': one,
                        'replay_cmd': './check C11 --replay <this file>'}, text=msg)
-    elif mism1 or mism2 or mism3 or not (ok1 and ok2 and ok3):
+    elif mism1 or mism2 or mism3 or mism4 or not (ok1 and ok2 and ok3 and ok4):
         if mism1 or not ok1:
             kind, (i, k), clog, what = 'dma', (mism1[0] if mism1 else (0, 0)), log1, 'coq/cp/Dma.v and amd/timing/cp/dma.go'
         elif mism2 or not ok2:
             kind, (i, k), clog, what = 'drv', (mism2[0] if mism2 else (0, 0)), log2, \
                 'coq/drv/MemCopy.v, coq/mem/StorageAccessor.v and amd/driver/memorycopy*.go, amd/emu/storageaccessor.go'
+        elif mism4 or not ok4:
+            kind, (i, k), clog, what = 'hist', (mism4[0] if mism4 else (0, 0)), log4, \
+                'coq/drv/FlushHist.v and the dirty marks / flush decisions of amd/driver (memorycopy.go, driver.go, api.go)'
         else:
             kind, (i, k), clog, what = 'ovl', (mism3[0] if mism3 else (0, 0)), log3, 'mem_range_overlap and driver.memRangeOverlap'
         c = cases[kind][i] if cases[kind] else None
         if c:
             c = {kk: v for kk, v in c.items() if kk not in ('coq', 'dump')}
-        one = {'dma': [], 'drv': [], 'ovl': []}
+        one = {'dma': [], 'drv': [], 'ovl': [], 'hist': []}
         one[kind] = [c] if c else []
         rep.violation({'property': PROP, 'broken': 'correspondence between %s: observation %d of case %d differs; theorems of '
                        'props/C11.v no longer speak about this code' % (what, k, i),
                        'cases': one, 'first_diverging_observation': k, 'log': clog[-2000:]}, nofail=True,
                       text='model/implementation mismatch (%s) at case %d observation %d; no property violation found on %d cases'
-                      % (kind, i, k, len(cases['dma']) + len(cases['drv']) + len(cases['ovl'])))
+                      % (kind, i, k, len(cases['dma']) + len(cases['drv']) + len(cases['ovl']) + len(cases['hist'])))
     return rep.finish()
 
 
